@@ -183,9 +183,11 @@ CHECKS = {
         level="exploration",
         engine="W",
         technique="exhaustive enumeration of a finite product of exchange shapes over real connections with a differential oracle (direct vs through Helios) and a lock-step streaming script",
-        text="A finite product of exchange shapes (methods x request body sizes around the 32 KiB copy buffer x request framing x statuses incl. 103+200 / 204 / 304 / 3xx / 4xx / 5xx x response sizes x response framing {declared length, chunked, chunked with flushes}; a 12-shape core crossed with 6 paths x 4 queries, 11 request-header sets, 6 response-header sets, 3 backend base paths, all five strategies and the request-ID / trace middleware on/off with and without client-supplied IDs) is enumerated; each shape is exchanged twice with the same raw-socket client, directly with the scripted backend and through the real handler chain (buildHandler) behind the real server (createHTTPServer), and what the backend received (method, request-target bytes, end-to-end header multiset, X-Forwarded-For append, framing, body) and what the client received (interim responses, status, header multiset, framing class and Content-Length, body) must agree. 36 lock-step streaming scripts (backend blocks after each flush until the client has read that part through Helios) decide the flushing clause; raw backend answers that break off detectably (missing final chunk, short chunk, fewer bytes than Content-Length) must stay detectably incomplete for the client; response trailers must arrive.",
+        text="A finite product of exchange shapes (methods x request body sizes around the 32 KiB copy buffer x request framing x statuses incl. 103+200 / 204 / 304 / 3xx / 4xx / 5xx x response sizes x response framing {declared length, chunked, chunked with flushes}; a 12-shape core crossed with 6 paths x 4 queries, 11 request-header sets, 6 response-header sets, 3 backend base paths, all five strategies and the request-ID / trace middleware on/off with and without client-supplied IDs) is enumerated; each shape is exchanged twice with the same raw-socket client, directly with the scripted backend and through the real handler chain (buildHandler) behind the real server (createHTTPServer), and what the backend received (method, request-target bytes, end-to-end header multiset, X-Forwarded-For append, framing, body) and what the client received (interim responses, status, header multiset, framing class and Content-Length, body) must agree. 36 lock-step streaming scripts (backend blocks after each flush until the client has read that part through Helios) decide the flushing clause; raw backend answers that break off detectably (missing final chunk, short chunk, fewer bytes than Content-Length) must stay detectably incomplete for the client; response trailers must arrive. Eight concurrent clients on fresh connections, each with its own marked upload, status and body, must each get their own response (normal and -race build).",
         note="Sources are unmodified in this engine; time is real but only as a 10-20 s failure detector; a difference counts only if it reproduces five times; Date, hop-by-hop headers and the documented additions are normalised; inputs net/http itself re-spells (';' in queries, raw non-ASCII paths) are outside the alphabet.",
         jobs=[
+            dict(name="c01conc", part="Conc", pkg=MAIN, run="TestVerifC01Conc", mode="plain", gomaxprocs=8, shards=5, timeout=dict(quick=600, thorough=3000)),
+            dict(name="c01race", part="Conc-Race", pkg=MAIN, run="TestVerifC01Conc", mode="plain", race=True, gomaxprocs=8, shards=5, timeout=dict(quick=600, thorough=3000)),
             dict(name="c01trunc", part="Truncated", pkg=MAIN, run="TestVerifC01Truncated", mode="plain", gomaxprocs=4, shards=1, timeout=dict(quick=600, thorough=3000)),
             dict(name="c01stream", part="Stream", pkg=MAIN, run="TestVerifC01Stream", mode="plain", gomaxprocs=4, shards=dict(quick=4, thorough=4), timeout=dict(quick=600, thorough=3000)),
             dict(name="c01w", part="W", pkg=MAIN, run="TestVerifC01", mode="plain", gomaxprocs=4, shards=dict(quick=8, thorough=12), timeout=dict(quick=600, thorough=3000)),
@@ -196,9 +198,11 @@ CHECKS = {
         level="exploration",
         engine="W",
         technique="exhaustive enumeration of handler programs (every write partition x status x flush policy x framing) and uploads around the limit, exchanged over real connections with and without the plugin (differential oracle)",
-        text="For limits 1..3 (thorough 1..5) in both directions and three chain positions (alone, outermost and innermost of logging,size_limit,headers) every handler program of the product {GET, HEAD} x {implicit, 200, 201, 204, 301, 304, 404, 500} x every ordered partition into writes of bodies of L-1, L, L+1, L+3 bytes x {no flush, flush before the first write, flush after each write} x declared length is served directly under the chain built by the public BuildChain behind a real http.Server, once with and once without size_limit, and read by the raw client; within the limit the two responses must be identical (status, header multiset, body), over the limit the client gets at most L body bytes, a well-formed 413 when the first write already exceeds the limit before anything was sent. The same programs as a backend behind the real balancer and reverse proxy, and uploads of L-1, L, L+1, 4L bytes in both framings (backend reads <= L, declared oversize => 413 without contacting the backend, exactly L passes).",
+        text="For limits 1..3 (thorough 1..5) in both directions and three chain positions (alone, outermost and innermost of logging,size_limit,headers) every handler program of the product {GET, HEAD} x {implicit, 200, 201, 204, 301, 304, 404, 500} x every ordered partition into writes of bodies of L-1, L, L+1, L+3 bytes x {no flush, flush before the first write, flush after each write} x declared length is served directly under the chain built by the public BuildChain behind a real http.Server, once with and once without size_limit, and read by the raw client; within the limit the two responses must be identical (status, header multiset, body), over the limit the client gets at most L body bytes, a well-formed 413 when the first write already exceeds the limit before anything was sent. The same programs as a backend behind the real balancer and reverse proxy, and uploads of L-1, L, L+1, 4L bytes in both framings (backend reads <= L, declared oversize => 413 without contacting the backend, exactly L passes). Eight concurrent clients on fresh connections, each with its own marked upload, status and body, must each get their own response (normal and -race build).",
         note="Behind the reverse proxy a response of undeclared length has its header flushed by the proxy before the first body byte, so the must-be-413 clause is applied to declared-length responses there; backend accounting is attributed to exchanges by a sequence header.",
         jobs=[
+            dict(name="c14conc", part="Conc", pkg=MAIN, run="TestVerifC14Conc", mode="plain", gomaxprocs=8, shards=1, timeout=dict(quick=600, thorough=3000)),
+            dict(name="c14race", part="Conc-Race", pkg=MAIN, run="TestVerifC14Conc", mode="plain", race=True, gomaxprocs=8, shards=1, timeout=dict(quick=600, thorough=3000)),
             dict(name="c14hist", part="Hist", pkg=MAIN, run="TestVerifC14Hist", mode="plain", gomaxprocs=1, shards=dict(quick=15, thorough=15), timeout=dict(quick=600, thorough=3000)),
             dict(name="c14w", part="W", pkg=MAIN, run="TestVerifC14", mode="plain", gomaxprocs=4, shards=dict(quick=12, thorough=16), timeout=dict(quick=600, thorough=3000)),
         ],
